@@ -46,7 +46,8 @@ def build(shape):
     def go(parent, spec):
         for s in spec:
             if isinstance(s, str):
-                N('text' if s == 't' else 'elem', '' if s == 't' else s, parent)
+                nd = N('text' if s in ('t', 'w') else 'elem', '' if s in ('t', 'w') else s, parent)
+                nd.stripped = s == 'w'      # a white-space text node that xsl:strip-space removes: still in the DOM (Xalan does not unlink it), but no pattern matches it
             else:
                 e = N('elem', s[0], parent)
                 go(e, s[1:])
@@ -108,7 +109,7 @@ class CWorld:
         f = body['file']
         nm = (body.get('fq') or '').split('::')[-1]
         if f.endswith(('XSLT/ElemNumber.cpp', 'XSLT/ElemNumber.hpp')):
-            return nm in ('getCountString', 'getMatchingAncestors', 'getTargetNode', 'findAncestor', 'findPrecedingOrAncestorOrSelf', 'getPreviousNode', 'getCountMatchPattern', 'getID')
+            return not body.get('cls') or nm in ('getCountString', 'getMatchingAncestors', 'getTargetNode', 'findAncestor', 'findPrecedingOrAncestorOrSelf', 'getPreviousNode', 'getCountMatchPattern', 'getID')
         if f.endswith(('XSLT/CountersTable.cpp', 'XSLT/CountersTable.hpp')):
             return nm in ('countNode', 'getPreviouslyCounted')
         return False
@@ -122,7 +123,7 @@ class CWorld:
         if kind == 'elem':
             return nd.kind == 'elem' and (name == '*' or nd.name == name)
         if kind == 'text':
-            return nd.kind == 'text'
+            return nd.kind == 'text' and not getattr(nd, 'stripped', False)
         if kind == 'doc':
             return nd.kind == 'doc'
         return False
@@ -298,10 +299,29 @@ SHAPES = [
 ]
 
 
-def run_rule(res, facts, tier):
+SHAPES_WS = [
+    [['a', 'w', ['b'], 'w', 't', ['b'], 'w', 't', ['c', 'w', 't', ['b'], 't'], 'w']],
+    [['r', 't', 'w', ['s', 'w'], 'w', 't', 'w', 't']],
+]
+
+
+def run_c13_rule(res, facts, tier):
+    return run_rule(res, facts, tier, rid='C13-R8', shapes=SHAPES_WS)
+
+
+def run_rule(res, facts, tier, rid='C01-R12', shapes=None):
+    if rid == 'C13-R8':
+        r = res.rule('C13-R8', 'xsl:number does not count what xsl:strip-space removed: the counting code of C01-R12 interpreted on trees that contain stripped white-space text nodes '
+                     '(present in the DOM, matched by no pattern: NodeTester consults the strip decision, C13-R2 / R6), numbering text nodes and elements without a count attribute '
+                     'and with count="text()": the numbers are those of the tree without the stripped nodes', floor=150)
+        return _run(res, facts, tier, r, shapes, [None, ('PAT', 'text', ''), ('PAT', 'elem', 'b')], [None, ('PAT', 'elem', 'c')])
     r = res.rule('C01-R12', 'xsl:number, which nodes are counted: getCountString with getMatchingAncestors / getTargetNode / getPreviousNode and CountersTable::countNode with its cache of '
                  'counted nodes interpreted for level single / multiple / any, with and without count and from patterns, every node of three small trees visited in document, '
                  'reverse and shuffled order with one counters table: the numbers handed to the formatter are those of XSLT 1.0 7.7, whatever was counted before', floor=800)
+    return _run(res, facts, tier, r, SHAPES, [None, ('PAT', 'elem', 'b'), ('PAT', 'elem', '*'), ('PAT', 'elem', 'a')], [None, ('PAT', 'elem', 's'), ('PAT', 'elem', 'a'), ('PAT', 'elem', 'c')])
+
+
+def _run(res, facts, tier, r, SHAPES, counts, froms):
     w = CWorld(facts)
     cands = [a for a in facts.asts('ElemNumber::getCountString', must=False) if a.get('body') is not None and len(a['params']) == 2]
     if len(cands) != 1:
@@ -311,8 +331,6 @@ def run_rule(res, facts, tier):
     if None in LV.values():
         raise AnalysisBroken('ElemNumber level constants not found')
     kfields = {f['n'] for f in (facts.K.get(NS + 'ElemNumber') or {}).get('fields', [])}
-    counts = [None, ('PAT', 'elem', 'b'), ('PAT', 'elem', '*'), ('PAT', 'elem', 'a')]
-    froms = [None, ('PAT', 'elem', 's'), ('PAT', 'elem', 'a'), ('PAT', 'elem', 'c')]
     deep = tier == 'thorough'
     rng = random.Random(7)
     reported = {}
@@ -334,6 +352,8 @@ def run_rule(res, facts, tier):
                     elem.fields.setdefault(f, 0)
                 w.ctable = Obj(NS + 'CountersTable', {'m_countersVector': Vec([Vec([])]), 'm_newFound': Vec([])})
                 for nd in order:
+                    if getattr(nd, 'stripped', False):
+                        continue        # a stripped node is never the current node
                     if frm is not None and CWorld.matches(frm, nd):
                         continue        # the current node itself matches from: the Recommendation does not say, and processors differ
                     w.current = nd
